@@ -44,6 +44,18 @@ class PartialEvalInfo:
     def_use: DefineUseAnalysis
 
 
+def _holds_list(val) -> bool:
+    return isinstance(val, list) or (isinstance(val, tuple) and any(_holds_list(v) for v in val))
+
+
+class _HasStore(DefaultVisitor):
+    """Does the function contain an element store ``xs[i] = e``?"""
+    found = False
+
+    def _visit_indexed_assign(self, stmt, ctx):
+        self.found = True
+
+
 class _PartialEvalInstance(DefaultVisitor):
     """
     Partial evaluation instance for a function.
@@ -68,6 +80,9 @@ class _PartialEvalInstance(DefaultVisitor):
         self.by_expr = {}
 
     def apply(self) -> PartialEvalInfo:
+        probe = _HasStore()
+        probe._visit_function(self.func, None)
+        self._has_store = probe.found
         self._visit_function(self.func, None)
         # Strip ``_TOP`` from the public view — consumers see only
         # foldable :data:`Value` entries.
@@ -318,7 +333,9 @@ class _PartialEvalInstance(DefaultVisitor):
             case Id():
                 if isinstance(binding, NamedId):
                     d = self.def_use.find_def_from_site(binding, site)
-                    self.by_def[d] = val
+                    # a list is shared by reference: once the function stores
+                    # into any list, a name bound to one is not a constant
+                    self.by_def[d] = _TOP if self._has_store and _holds_list(val) else val
             case TupleBinding():
                 assert isinstance(val, tuple)
                 for elt, v in zip(binding.elts, val):
